@@ -26,7 +26,7 @@ PROPS = {
 PROPS["C02"] = dict(level="exploration", steps=simple("^TestC02"), assumptions=TRUST)
 PROPS["C09"] = dict(level="exploration", steps=simple("^(TestC09|TestRefGolden)"), assumptions=TRUST)
 PROPS["C19"] = dict(level="exploration", steps=simple("^TestC19", shards_thorough=1), assumptions=TRUST)
-PROPS["C06"] = dict(level="fault_enumeration", steps=simple("^TestC06"), assumptions=TRUST)
+PROPS["C06"] = dict(level="fault_enumeration", steps=simple("^TestC06", shards_quick=3), assumptions=TRUST)
 PROPS["C05"] = dict(level="exploration", steps=simple("^TestC05", fuzz="FuzzC05"), assumptions=TRUST)
 
 
@@ -70,7 +70,7 @@ PROPS["C16"] = dict(level="exploration", steps=simple("^TestC16"), assumptions=T
 def c14_steps(tier):
     th = tier == "thorough"
     return [
-        dict(run="^TestC14(Blocks|LongHistory)", variant="default", shards=(8 if th else 1)),
+        dict(run="^TestC14(Blocks|LongLived)", variant="default", shards=(8 if th else 1)),
         dict(run="^TestC14Frames", variant="bubble", shards=(6 if th else 1)),  # also matches TestC14FramesPinned
         dict(run="^TestC14Frames$", variant="bubble", shards=(2 if th else 1), env={"GOMAXPROCS": "1", "VERIF_C14_SCALE": "40"}),
     ]
